@@ -193,11 +193,11 @@ func grouperSummary(p *Program, g *ssa.Global) string {
 		}
 	}
 	if fn == nil || len(fn.Params) < 1 {
-		return "?global:" + g.Name()
+		return "?global:" + globalName(g)
 	}
 	rets := returnsOf(fn)
 	if len(rets) != 1 {
-		return "?global:" + g.Name()
+		return "?global:" + globalName(g)
 	}
 	rv := rets[0].Results[0]
 	if rv == ssa.Value(fn.Params[0]) {
@@ -209,7 +209,7 @@ func grouperSummary(p *Program, g *ssa.Global) string {
 			return "all-in-one"
 		}
 	}
-	return "?global:" + g.Name()
+	return "?global:" + globalName(g)
 }
 
 // ---------------------------------------------------------------------------
